@@ -89,11 +89,12 @@ def finish(rep, level, explanation, assumptions, trusted_base, seed=0, checker_c
     """Checks floors, separates known findings from violations, writes evidence, returns exit code."""
     prop = rep.prop
     # floors: a rule that matched fewer instances than confirmed by hand is analysis-broken
+    floor_miss = None
     for name in rep.order:
         r = rep.rules[name]
-        if r.instances < r.floor:
-            raise AnalysisBroken('rule %s matched %d instance(s), below its confirmed floor of %d - '
-                                 'an anchor vanished or the instantiation witnesses no longer cover it' % (name, r.instances, r.floor))
+        if r.instances < r.floor and floor_miss is None:
+            floor_miss = ('rule %s matched %d instance(s), below its confirmed floor of %d - '
+                          'an anchor vanished or the instantiation witnesses no longer cover it' % (name, r.instances, r.floor))
     known = load_known()
     known_keys = {}
     for k in known.get('findings', []):
@@ -107,6 +108,12 @@ def finish(rep, level, explanation, assumptions, trusted_base, seed=0, checker_c
         else:
             violations.append(f)
     stale = [k for k in known_keys if k not in {f['key'] for f in rep.findings} and known_keys[k].get('tier', rep.tier) == rep.tier]
+    if floor_miss:
+        if not violations:
+            raise AnalysisBroken(floor_miss)
+        # a construct that a sibling rule reports as violated often also drops out of the instance count of the rule next to it: the
+        # violation is the verdict, the missed floor is reported with it
+        rep.notes.append(floor_miss + ' (reported together with the violation(s) below)')
 
     print('== %s (%s tier): rules and instances' % (prop, rep.tier))
     for name in rep.order:
